@@ -11,7 +11,7 @@ done
 go build ./... || { echo "renamed copy does not build"; exit 2; }
 mkdir -p /tmp/rn_verif/evidence; cp /verif/known_findings.json /tmp/rn_verif/
 rc=0
-for i in C01 C02 C03 C04 C05 C06 C07 C08 C09 C10 C11 C12 C13 C14 C15 C16 C18 C19 C20; do echo $i; done | xargs -P 6 -I{} sh -c "/verif/bin/grogcheck check {} -repo /tmp/rn -verif /tmp/rn_verif > /tmp/rn_{}.out 2>&1; echo {} exit=\$? \$(grep -c '^VIOLATION' /tmp/rn_{}.out) violations" | sort
+for i in C01 C02 C03 C04 C05 C06 C07 C08 C09 C10 C11 C12 C13 C14 C15 C16 C17 C18 C19 C20; do echo $i; done | xargs -P 6 -I{} sh -c "/verif/bin/grogcheck check {} -repo /tmp/rn -verif /tmp/rn_verif > /tmp/rn_{}.out 2>&1; echo {} exit=\$? \$(grep -c '^VIOLATION' /tmp/rn_{}.out) violations" | sort
 grep -l "^VIOLATION" /tmp/rn_C*.out >/dev/null 2>&1 && rc=1
 rm -rf /tmp/rn /tmp/rn_verif
 exit $rc
